@@ -54,6 +54,30 @@ def scenario(rng):
         scn["steps"][0]["opt"]["allow"] = True
     for st in scn["steps"][1:]:
         st["ev"] = rng.choice(d["evlist"])
+    # listeners attached LATE, in the middle of the history (after the transitions have already fired for some
+    # events): from then on their callbacks belong to the groups like everybody else's
+    new = scn["steps"][0]
+    lst = [p for p in new["provs"] if p not in ("sm", "model")]
+    if lst and rng.random() < 0.5:
+        late = rng.sample(lst, rng.randint(1, len(lst)))
+        for cb in d["cbs"]:
+            if cb["prov"] in late and cb.get("style") != "convention":
+                cb["prov"] = "sm"            # explicit names must resolve at construction
+        ctor = [p for p in new["provs"] if p not in late]
+        ctor_async = any(cb["coro"] and cb["prov"] in ctor for cb in d["cbs"])
+        for cb in d["cbs"]:
+            if cb["prov"] in late and not ctor_async:
+                cb["coro"] = False           # (known finding F7: coroutine listener added to a sync-engine machine)
+        new["provs"] = ctor
+        for p in late:
+            at = rng.randint(min(2, len(scn["steps"])), len(scn["steps"]))
+            scn["steps"].insert(at, {"op": "call", "i": 1, "api": "add_listener", "v": p})
+        # ... and the events sent before come again afterwards
+        before = [st["ev"] for st in scn["steps"][1:] if st.get("api") != "add_listener"]
+        for _ in range(rng.randint(3, 8)):
+            scn["steps"].append({"op": "call", "i": 1, "api": rng.choice(["send", "event"]),
+                                 "ev": rng.choice(before or d["evlist"]), "gv": gen.rand_gv(rng)})
+        scn["late_listeners"] = True
     if any(cb["coro"] for cb in d["cbs"]):
         scn["steps"][0]["opt"]["rtc"] = True
         if rng.random() < 0.5:
@@ -78,7 +102,7 @@ def run(pid, tier, seed, replay):
         fam_size=5 if quick else 30, shards=4 if quick else 12, label="callback order")
     chk.coverage["rule"] = ("family: small definitions with up to 7 callbacks over all kinds (transition, event-scoped "
                             "convention, generic, state, generic-state), all in-group orders; random: every attachment "
-                            "style x provider, external/self/internal/multi-event transitions, both engines, coroutine "
-                            "callbacks that yield")
+                            "style x provider (listeners attached at construction or in the middle of the history), "
+                            "external/self/internal/multi-event transitions, both engines, coroutine callbacks that yield")
     chk.assumptions += ["order inside one group is unconstrained (documented)"]
     return chk.finish()
